@@ -77,7 +77,7 @@ pub struct Node {
     pub cb: Arc<AtomicUsize>,
     pub calls: Arc<Mutex<Vec<Call>>>,
     pub subs: Vec<Sub>,
-    pub watch_rx: watch::Receiver<BTreeMap<ChitchatId, NodeState>>,
+    pub watch_rx: Option<watch::Receiver<BTreeMap<ChitchatId, NodeState>>>,
     pub _seed_tx: watch::Sender<HashSet<SocketAddr>>,
     pub death: HashMap<Id, u64>,
     pub removed_hb: HashMap<Id, u64>,
@@ -293,7 +293,7 @@ impl World {
             cb,
             calls: Arc::new(Mutex::new(Vec::new())),
             subs: Vec::new(),
-            watch_rx,
+            watch_rx: Some(watch_rx),
             _seed_tx: seed_tx,
             death: HashMap::new(),
             removed_hb: HashMap::new(),
